@@ -92,3 +92,138 @@ def framing_ob(pid, endian, mode, N, nfiles=1):
                       FRAME_FUNCS, build, weight_gb=3 if N <= 16 else 6, timeout=1500,
                       stubs=ENV_STUBS + ["decode_line -> recording stub (goto-instrument --replace-calls); its contract "
                                          "(false => diagnostic, reads only data[0..len)) is what the line queries establish"])
+
+# ------------------------------------------------------------------ tables
+def tables_ob(pid, dname, dnum):
+    oid = "%s.tables.%s" % (pid, dname)
+    def build():
+        d = prepare_dialect(dname, dnum)
+        defs = ["DIALECT_NUM=%d" % dnum, 'REPO_TOKENS_C="%s"' % os.path.join(REPO, "basic", "tokens.c")]
+        uw = {"build_mapping.0": 130, "build_mapping.1": 112, "build_mapping.2": 258, "build_invalid_map.0": 258,
+              "streq16.0": 17, "harness.0": 257}
+        cmd = cbmc_cmd([os.path.join(HC, "h_tables.c")], "harness", uw, defs, [os.path.join(REPO, "basic"), HC, d],
+                       extra=["--object-bits", "12", "--max-field-sensitivity-array-size", "300"])
+        native = dict(cc="gcc", files=[os.path.join(HC, "h_tables.c"), os.path.join(HC, "native_rt.c")],
+                      defines=defs, includes=[os.path.join(REPO, "basic"), HC, d])
+        return dict(cmd=cmd, native=native)
+    return Obligation(oid, "real build_mapping(%s) executed under CBMC: all 4x256 entries equal the table of doc/bbcbasic.5 "
+                      "(spec/tokens.json) and equal the natively precomputed struct used by the line queries; build_mapping memory-safe" % dname,
+                      "no symbolic input (dialect concrete, 256 indices unrolled by symex); unwind = table sizes",
+                      ["basic/tokens.c:build_mapping", "build_map_c6", "build_map_c7", "build_map_c8", "build_invalid_map"],
+                      build, weight_gb=3, timeout=900, stubs=["none (tokens.c included whole)"])
+
+# ------------------------------------------------------------------ main()
+def main_ob(pid, mode, ndebug=True, nfiles=3):
+    oid = "%s.main.%s.%s" % (pid, mode.lower(), "ndebug" if ndebug else "assert")
+    def build():
+        d = subdir(oid)
+        b = os.path.join(REPO, "basic")
+        defs = ["MODE_" + mode, "NFILES=%d" % nfiles, 'REPO_MAIN_C="%s"' % os.path.join(b, "bbcbasic_to_text.c"),
+                'REPO_DECODER_C="%s"' % os.path.join(b, "decoder.c"), 'REPO_TOKENS_C="%s"' % os.path.join(b, "tokens.c")]
+        if ndebug: defs.append("NDEBUG")
+        gb, gb2 = os.path.join(d, "h.gb"), os.path.join(d, "h2.gb")
+        cc = ["goto-cc", "-I", b, "-I", HC]
+        for x in defs: cc += ["-D", x]
+        cc += [os.path.join(HC, "h_main.c"), "-o", gb]
+        r = sh(cc)
+        if r["rc"] != 0: raise RuntimeError("goto-cc failed:\n" + r["out"])
+        r = sh(["goto-instrument", "--replace-calls", "build_mapping:build_mapping_stub", "--replace-calls",
+                "internal_dump_all_dialects:internal_dump_all_dialects_stub", gb, gb2])
+        if r["rc"] != 0 or not os.path.exists(gb2): raise RuntimeError("goto-instrument failed:\n" + r["out"])
+        uw = {"build_mapping_stub.0": 257, "set_dialect.0": 12, "print_dialects.0": 12, "wrapped_main.0": 5,
+              "wrapped_main.1": nfiles + 2, "strtol.0": 6, "strtol.1": 10, "getopt_long.0": 18}
+        cmd = ["cbmc", gb2, "--object-bits", "12", "--function", "harness", "--unwind", "34", "--unwindset",
+               ",".join("%s:%d" % kv for kv in uw.items()), "--unwinding-assertions", "--drop-unused-functions",
+               "--no-malloc-may-fail", "--verbosity", "8", "--sat-solver", "cadical"] + CBMC_CHECKS
+        return dict(cmd=cmd, native=None)
+    what = {"SAFE": "main/wrapped_main on every command line shape: exit status in {0,1}, non-zero => diagnostic, option "
+                    "state (dialect, listo) initialised before use, inputs opened \"rb\", no memory-safety violation",
+            "FILES": "per-file loop: every operand decoded once, in order, with the same options and a fresh token map; "
+                     "framing family chosen by dialect; '-' reads standard input; failures accumulate into the exit status",
+            "IOFAIL": "exit path under stdout failure: any lost output (reported failure, or buffered data failing at "
+                      "the final flush) => exit status != 0 and a diagnostic"}[mode]
+    return Obligation(oid, what + (" [compiled with -DNDEBUG as the pinned build]" if ndebug else " [assertions enabled]"),
+                      "<=3 options (kind/argument chosen by a getopt_long contract model reading the real option tables; "
+                      "option arguments are arbitrary 3-char strings), <=%d operands each '-' or a name, fopen/fclose may fail" % nfiles,
+                      ["basic/bbcbasic_to_text.c:main", "wrapped_main", "set_listo", "usage", "help", "basic/decoder.c:new_decoder",
+                       "decode_file", "destroy_decoder", "basic/tokens.c:set_dialect", "print_dialects"],
+                      build, weight_gb=6, timeout=1500,
+                      stubs=ENV_STUBS + ["getopt_long/strtol/strcmp/fopen/fclose/fflush contract models (harness/c/h_main.c)",
+                                         "decode_big_endian_program/decode_little_endian_program -> recording stubs",
+                                         "build_mapping -> precondition-checking stub (dialect < NUM_DIALECTS)",
+                                         "internal_dump_all_dialects -> protocol stub (body of the undocumented -D option not encoded)"])
+
+def mapping_safe_ob(pid):
+    return tables_ob(pid, "6502", 0)
+
+# ------------------------------------------------------------------ reference monotonicity (prefix property of C09)
+def refmono_ob(pid, endian, N):
+    oid = "%s.refmono.%s.N%d" % (pid, endian, N)
+    def build():
+        defs = [endian, "NIN=%d" % N]
+        uw = {"ref_frame.0": N // 4 + 3, "harness.0": N + 1, "harness.1": N // 4 + 3}
+        cmd = cbmc_cmd([os.path.join(HC, "h_refmono.c")], "harness", uw, defs, [os.path.join(REPO, "basic"), HC], unwind=N + 2)
+        return dict(cmd=cmd, native=None)
+    return Obligation(oid, "the framing reference is prefix-monotone: for every file P and cut k, the lines it defines for "
+                      "P[0..k) are a prefix of those for P and a cut inside P is never 'accept' -- this turns 'real == reference' "
+                      "(framing queries) into 'output before failing on a truncated file is a prefix of the intact output'",
+                      "P of <= %d symbolic bytes, every cut point" % N, ["harness/c/h_framing.c:ref_frame (oracle only)"],
+                      build, weight_gb=2, timeout=600)
+
+# ------------------------------------------------------------------ oracle validation (not a verdict)
+def oracle_precheck():
+    r = sh([sys.executable, os.path.join(ROOT, "tools", "validate_oracle.py")])
+    return r["rc"] == 0, r["out"].strip().splitlines()[0] if r["out"].strip() else "no output"
+
+# ------------------------------------------------------------------ CLI replay of framing counterexamples
+_bbc = {}
+def build_bbc():
+    with _lock:
+        if "exe" in _bbc: return _bbc["exe"]
+        exe = os.path.join(scratch(), "bbcbasic_to_text")
+        import glob
+        r = sh(["gcc", "-O2", "-DNDEBUG"] + sorted(glob.glob(os.path.join(REPO, "basic", "*.c"))) + ["-o", exe])
+        if r["rc"] != 0: raise RuntimeError(r["out"])
+        _bbc["exe"] = exe
+        return exe
+
+def cli_replay_file(ob, values, outdir):
+    """values = [listo, len0, bytes0[NIN], len1, bytes1[NIN], ...]: run the real program on the file(s)."""
+    import re, subprocess
+    sys.path.insert(0, os.path.join(ROOT, "tools"))
+    import ref_basic as R
+    m = re.search(r"\.N(\d+)\.F(\d+)", ob.id)
+    N, F = int(m.group(1)), int(m.group(2))
+    endian = ob.result["spec"]["cli"]["endian"]
+    dialect = "6502" if endian == "BE" else "Z80"
+    if not values: return dict(reproduced=None, detail="no input values in the trace")
+    listo = values[0] & 7
+    files = []
+    for i in range(F):
+        base = 1 + i * (N + 1)
+        ln = values[base] if base < len(values) else 0
+        data = bytes((values[base + 1 + k] & 0xFF) if base + 1 + k < len(values) else 0 for k in range(min(ln, N)))
+        p = os.path.join(outdir, "input%d.bbc" % i)
+        open(p, "wb").write(data); files.append((p, data))
+    exe = build_bbc()
+    pr = subprocess.run([exe, "--dialect", dialect, "--listo", str(listo)] + [p for p, _ in files],
+                        stdout=subprocess.PIPE, stderr=subprocess.PIPE, timeout=30)
+    exp = [R.ref_file(dialect, d, listo) for _, d in files]
+    problems = []
+    if any(v == R.REJECT for v, _ in exp):
+        if pr.returncode == 0: problems.append("exit status 0 although a file is truncated/ill-formed")
+        if pr.returncode != 0 and not pr.stderr: problems.append("non-zero exit without a diagnostic")
+    if all(v == R.ACCEPT for v, _ in exp):
+        if pr.returncode != 0: problems.append("exit status %d on well-formed input" % pr.returncode)
+        if pr.stdout != b"".join(t for _, t in exp): problems.append("listing differs from the documented listing")
+    if F == 1 and exp[0][0] == R.REJECT and not pr.stdout.startswith(exp[0][1]):
+        problems.append("output before the failure is not the listing of the complete lines")
+    if F == 1 and exp[0][0] == R.REJECT and len(pr.stdout) > len(exp[0][1]) and b"\n" in pr.stdout[len(exp[0][1]):]:
+        problems.append("a line was listed that the intact prefix does not contain (stale or invented text)")
+    if F == 2 and exp[1][0] == R.ACCEPT and not pr.stdout.endswith(exp[1][1]):
+        problems.append("second file's listing depends on the first file")
+    open(os.path.join(outdir, "cli.txt"), "w").write("cmd: %s --dialect %s --listo %d %s\nrc=%d\nstdout=%r\nstderr=%r\nexpected=%r\nproblems=%r\n" %
+        (exe, dialect, listo, " ".join(p for p, _ in files), pr.returncode, pr.stdout, pr.stderr, exp, problems))
+    if any(v == R.UNSPEC for v, _ in exp) and not problems:
+        return dict(reproduced=None, detail="input is outside the oracle's claim")
+    return dict(reproduced=bool(problems), detail="; ".join(problems) or "real program agrees with the oracle on this input")
